@@ -160,6 +160,27 @@ def pfmtM1m1 (nt nv : Nat) (G : PMat) : List (List α) := fmtM1m1 nv (psum nt nv
 
 end phased
 
+/-! ### run-length compressed populations (driver only: very large populations with few distinct rows) -/
+
+/-- the matrix in which row `k` of `rows` occurs `mult[k]` times -/
+def expand (rows : UMat) (mult : List Nat) : UMat :=
+  (List.zipWith (fun (k : Nat) (r : List Int) => List.replicate k r) mult rows).flatten
+
+/-- column sum of the expanded matrix computed from the distinct rows -/
+def acountWAt (rows : UMat) (mult : List Nat) (j : Nat) : Int :=
+  (List.zipWith (fun (k : Nat) (r : List Int) => (k : Int) * entry r j) mult rows).sum
+
+section compressed
+variable {α : Type} [Div α] [NatCast α] [IntCast α]
+
+/-- `afreqAt` of the expanded matrix, from the distinct rows and their multiplicities (`nt = Σ mult`) -/
+def afreqWAt (ploidy nt : Nat) (rows : UMat) (mult : List Nat) (j : Nat) : α :=
+  ((acountWAt rows mult j : Int) : α) / ((ploidy * nt : Nat) : α)
+def afreqW (ploidy nt nv : Nat) (rows : UMat) (mult : List Nat) : List α :=
+  (List.range nv).map (afreqWAt ploidy nt rows mult)
+
+end compressed
+
 /-! ### validity of the raw calls (what the generators produce, what the theorems assume) -/
 
 /-- unphased: `nt ≥ 1` taxa, rectangular, every dosage in `0..ploidy` -/
